@@ -146,6 +146,8 @@ def run_spec(spec, props=("C06",)):
     A = Acc()
     n = spec["n"]
     G = gr.mk(n, [tuple(e) for e in spec["edges"]])
+    for i, (u, v) in enumerate(G.edges()):
+        G[u][v]["weight"] = 0.37 + 0.45 * i      # an attribute literally named 'weight' must not leak into unweighted calls
     ic = ic_of(spec)
     cls0 = ic_class(ic)
     for name in spec["names"]:
